@@ -32,6 +32,9 @@ def _build_parse_stack(
     if append_middleware is None:
         return list(parse_stack)
 
+    # Materialize once: the iterable may be a one-shot iterator
+    append_middleware = list(append_middleware)
+
     parse_stack_types = [type(m) for m in parse_stack]
     append_stack_types = {type(m) for m in append_middleware}
     stack_types_intersect = set(parse_stack_types).intersection(append_stack_types)
@@ -61,6 +64,9 @@ def _build_unparse_stack(
 
     if prepend_middleware is None:
         return list(unparse_stack)
+
+    # Materialize once: the iterable may be a one-shot iterator
+    prepend_middleware = list(prepend_middleware)
 
     parse_stack_types = [type(m) for m in unparse_stack]
     append_stack_types = {type(m) for m in prepend_middleware}
